@@ -26,6 +26,7 @@ template <class E> Conf<E> randomConf(vh::Rng& r, uint64_t seed, long maxN, bool
     const auto bss = tbx::blockSizesFor(std::min(nbLeavesMax, N), false);
     c.blockSize = bss[r.below(bss.size())];
     if (r.coin(0.08)) c.blockSize = -1; // automatic
+    if (tbx::forcedBlockSize()) c.blockSize = tbx::forcedBlockSize();
     c.oneGroupPerParent = r.coin(0.5);
     c.upper = E::Space::IsPeriodic ? 1 : (r.coin(0.7) ? 2 : long(r.below(2)));
     return c;
